@@ -17,6 +17,7 @@ use docs::Doc;
 use serde_json::{Value, json};
 use std::collections::{BTreeMap, HashSet};
 use std::io::Write;
+use vcore::capped::Capped;
 use vcore::errs::{kind, line_col};
 use vcore::obs::{FaultWriter, ReadStats, WFAULT_MSG, WFault, catch, panic_site};
 use vcore::rdr::{Chunking, CutReader, RFault, RUNAWAY_MSG};
@@ -235,11 +236,11 @@ fn check_fault_case(run: &Run, l: &mut Local, c: &FaultCase, reference: &RRun) {
         Err(p) if p.contains(RUNAWAY_MSG) => {
             l.add("reader_runaway_after_fault", 1);
             let class = runaway_class(&c.doc.text, &p);
-            run.violation(&format!("C10:reader:never-returns-after-fault:{class}"), c.json(), p);
+            run.violation_capped(&format!("C10:reader:never-returns-after-fault:{class}"), c.json(), p);
             return;
         }
         Err(p) => {
-            run.violation(&format!("C10:panic:{}", panic_site(&p)), c.json(), p);
+            run.violation_capped(&format!("C10:panic:{}", panic_site(&p)), c.json(), p);
             return;
         }
     };
@@ -248,7 +249,7 @@ fn check_fault_case(run: &Run, l: &mut Local, c: &FaultCase, reference: &RRun) {
     if !fired {
         l.add("fault_not_reached", 1);
         if r.items != reference.items {
-            run.violation(
+            run.violation_capped(
                 "C10:reader:unfired-fault-changed-result",
                 c.json(),
                 format!("fault-free: {} | with unfired fault plan: {}", show_items(&reference.items), show_items(&r.items)),
@@ -300,7 +301,7 @@ fn check_fault_case(run: &Run, l: &mut Local, c: &FaultCase, reference: &RRun) {
         } else {
             format!("C10:reader:{}:fault-swallowed:{}:{pc}{bom}", c.e.name(), c.f.label())
         };
-        run.violation(
+        run.violation_capped(
             &sig,
             c.json(),
             format!(
@@ -332,7 +333,7 @@ fn check_fault_case(run: &Run, l: &mut Local, c: &FaultCase, reference: &RRun) {
                 Some(Canon::Ok(w)) if w == v => {}
                 other => {
                     let after = r.items[..i].iter().any(|x| matches!(x, Canon::Err(k, _) if k == "IOError"));
-                    run.violation(
+                    run.violation_capped(
                         &format!(
                             "C10:reader:iter:ok-item-built-from-truncated-input:{}{bom}",
                             if after { "after-io-error-item" } else { "no-earlier-io-error-item" }
@@ -353,7 +354,7 @@ fn check_fault_case(run: &Run, l: &mut Local, c: &FaultCase, reference: &RRun) {
             {
                 l.add("iter_ok_items_position_checked", 1);
                 if *e > delivered {
-                    run.violation(
+                    run.violation_capped(
                         &format!("C10:reader:iter:ok-item-from-document-not-fully-delivered{bom}"),
                         c.json(),
                         format!("item {i} = Ok({v}) but its document ends at byte {e} and only {delivered} bytes were delivered"),
@@ -393,7 +394,7 @@ fn sweep_doc(run: &Run, l: &mut Local, doc: &Doc, t: &Target, chunkings: &[Chunk
                     } else {
                         format!("C10:panic:{}", panic_site(&p))
                     };
-                    run.violation(&sig, c.json(), p);
+                    run.violation_capped(&sig, c.json(), p);
                     continue;
                 }
             };
@@ -469,7 +470,7 @@ fn check_cap_large(run: &Run, l: &mut Local, c: &CapCase, text: &str, nocap: &RR
     let r = match run_reader(c.t, c.e, data, base_opts(Some(Some(c.cap))), c.ch, &RFault::None, 1_000_000) {
         Ok(r) => r,
         Err(p) => {
-            run.violation(&format!("C10:panic:{}", panic_site(&p)), c.json(), p);
+            run.violation_capped(&format!("C10:panic:{}", panic_site(&p)), c.json(), p);
             return;
         }
     };
@@ -479,7 +480,7 @@ fn check_cap_large(run: &Run, l: &mut Local, c: &CapCase, text: &str, nocap: &RR
     l.see("cap_values", c.cap.to_string());
     run.nontrivial(fnv_parts(&[b"cap", c.kind.as_bytes(), &c.cap.to_le_bytes(), c.e.name().as_bytes(), c.ch.to_json().to_string().as_bytes()]));
     if pulled > c.cap + ALLOWANCE {
-        run.violation(
+        run.violation_capped(
             &format!("C10:cap:pulled-more-than-cap-plus-allowance:{}", c.e.name()),
             c.json(),
             format!("cap {} bytes, input {} bytes, bytes pulled from the reader: {pulled} (> cap + {ALLOWANCE})", c.cap, data.len()),
@@ -492,7 +493,7 @@ fn check_cap_large(run: &Run, l: &mut Local, c: &CapCase, text: &str, nocap: &RR
         } else {
             format!("C10:cap:exceeded-but-no-error:{}", c.e.name())
         };
-        run.violation(
+        run.violation_capped(
             &sig,
             c.json(),
             format!("cap {} bytes, input {} bytes (read to the end when uncapped), result: {}", c.cap, data.len(), show_items(&r.items)),
@@ -509,7 +510,7 @@ fn check_cap_large(run: &Run, l: &mut Local, c: &CapCase, text: &str, nocap: &RR
             if let Canon::Ok(v) = it {
                 l.add("cap_iter_ok_items_checked", 1);
                 if nocap.items.get(i) != Some(&Canon::Ok(v.clone())) {
-                    run.violation(
+                    run.violation_capped(
                         "C10:cap:iter-ok-item-differs-from-uncapped",
                         c.json(),
                         format!("item {i}: Ok({}) | uncapped: {:?}", v.chars().take(100).collect::<String>(), nocap.items.get(i)),
@@ -549,18 +550,18 @@ fn check_cap_small(run: &Run, l: &mut Local, doc: &Doc, t: &Target) {
             let r = match run_reader(t, e, data, base_opts(Some(Some(c))), &ch, &RFault::None, 10_000) {
                 Ok(r) => r,
                 Err(p) if p.contains(RUNAWAY_MSG) => {
-                    run.violation(&format!("C10:cap:never-returns-after-cap:{}", runaway_class(&doc.text[..c.min(n)], &p)), case(), p);
+                    run.violation_capped(&format!("C10:cap:never-returns-after-cap:{}", runaway_class(&doc.text[..c.min(n)], &p)), case(), p);
                     continue;
                 }
                 Err(p) => {
-                    run.violation(&format!("C10:panic:{}", panic_site(&p)), case(), p);
+                    run.violation_capped(&format!("C10:panic:{}", panic_site(&p)), case(), p);
                     continue;
                 }
             };
             if n <= c {
                 l.add("cap_small_within_cap_cases", 1);
                 if r.items != nocap.items {
-                    run.violation(
+                    run.violation_capped(
                         &format!("C10:cap:input-within-cap-differs-from-uncapped:cap-minus-len={}", c - n),
                         case(),
                         format!("len {n} <= cap {c}: uncapped {} | capped {}", show_items(&nocap.items), show_items(&r.items)),
@@ -576,7 +577,7 @@ fn check_cap_small(run: &Run, l: &mut Local, doc: &Doc, t: &Target) {
                     } else {
                         format!("C10:cap:exceeded-but-no-error:{}:small-input", e.name())
                     };
-                    run.violation(
+                    run.violation_capped(
                         &sig,
                         case(),
                         format!("len {n} > cap {c} and the uncapped run consumes the whole input, result: {}", show_items(&r.items)),
@@ -758,7 +759,7 @@ fn sweep_value<T: serde::Serialize>(run: &Run, l: &mut Local, value: &T, ident: 
         let free = match run_writer(value, optv, None, short, default_entry) {
             Ok(f) => f,
             Err(p) => {
-                run.violation(&format!("C10:panic:{}", panic_site(&p)), json!({"section": "writer", "value": ident, "opts": optv, "short": short, "plan": "none"}), p);
+                run.violation_capped(&format!("C10:panic:{}", panic_site(&p)), json!({"section": "writer", "value": ident, "opts": optv, "short": short, "plan": "none"}), p);
                 return;
             }
         };
@@ -792,14 +793,14 @@ fn sweep_value<T: serde::Serialize>(run: &Run, l: &mut Local, value: &T, ident: 
             let w = match run_writer(value, optv, Some(&plan), short, default_entry) {
                 Ok(w) => w,
                 Err(p) => {
-                    run.violation(&format!("C10:panic:{}", panic_site(&p)), case(), p);
+                    run.violation_capped(&format!("C10:panic:{}", panic_site(&p)), case(), p);
                     continue;
                 }
             };
             if !w.fired {
                 l.add("writer_fault_not_reached", 1);
                 if w.result.is_err() || w.accepted != f_out {
-                    run.violation(
+                    run.violation_capped(
                         "C10:writer:unfired-fault-changed-output",
                         case(),
                         format!("result {:?}, {} bytes accepted vs {} fault-free", w.result.as_ref().err().map(|e| e.to_string()), w.accepted.len(), f_out.len()),
@@ -817,7 +818,7 @@ fn sweep_value<T: serde::Serialize>(run: &Run, l: &mut Local, value: &T, ident: 
             }
             match &w.result {
                 Ok(()) => {
-                    run.violation(
+                    run.violation_capped(
                         &format!("C10:writer:fault-swallowed:{}", plan.label()),
                         case(),
                         format!("the writer failed (call {} of the run) but serialization returned Ok; {} bytes accepted, {} of them after the failure", w.calls, w.accepted.len(), w.accepted_after_fault),
@@ -829,7 +830,7 @@ fn sweep_value<T: serde::Serialize>(run: &Run, l: &mut Local, value: &T, ident: 
                 }
                 Err(other) => {
                     let variant: String = format!("{other:?}").chars().take_while(|c| c.is_ascii_alphanumeric()).collect();
-                    run.violation(
+                    run.violation_capped(
                         &format!("C10:writer:error-is-not-the-io-error:{variant}:{}", plan.label()),
                         case(),
                         format!("expected ser::Error::IO carrying \"{WFAULT_MSG}\", got {other:?}"),
@@ -838,7 +839,7 @@ fn sweep_value<T: serde::Serialize>(run: &Run, l: &mut Local, value: &T, ident: 
                 }
             }
             if !f_out.starts_with(&w.accepted) {
-                run.violation(
+                run.violation_capped(
                     &format!("C10:writer:accepted-bytes-not-a-prefix:{}", plan.label()),
                     case(),
                     format!(
@@ -890,7 +891,7 @@ fn replay(run: &Run, case: &Value) {
             let f = RFault::from_json(&case["fault"]);
             match run_reader(t, e, doc.text.as_bytes(), base_opts(None), &ch, &RFault::None, 10_000) {
                 Ok(reference) => check_fault_case(run, &mut l, &FaultCase { doc: &doc, t, e, ch: &ch, f }, &reference),
-                Err(p) => run.violation("C10:reader:never-returns:fault-free", case.clone(), p),
+                Err(p) => run.violation_capped("C10:reader:never-returns:fault-free", case.clone(), p),
             }
         }
         "cap-large" => {
@@ -1051,7 +1052,7 @@ fn main() {
                 let nocap = match run_reader(val_t, e, text.as_bytes(), base_opts(Some(None)), ch, &RFault::None, 1_000_000) {
                     Ok(r) => r,
                     Err(p) => {
-                        run.violation(&format!("C10:panic:{}", panic_site(&p)), json!({"section": "cap-large", "doc_kind": kind, "doc_len_at_least": len, "cap": "none", "entry": e.name()}), p);
+                        run.violation_capped(&format!("C10:panic:{}", panic_site(&p)), json!({"section": "cap-large", "doc_kind": kind, "doc_len_at_least": len, "cap": "none", "entry": e.name()}), p);
                         continue;
                     }
                 };
